@@ -177,13 +177,15 @@ func (f *frame) callFunc(fn *ssa.Function, args []Val, bindings []Val, c *ssa.Ca
 		}
 		return res
 	}
-	if ct := x.prog.Contracts[fn]; ct != nil && !ct.Inline {
+	if ct := x.prog.Contracts[fn]; ct != nil && !ct.Inline && !(len(x.qsyms) > 0 && len(fn.Blocks) > 0 && inlinable(fn)) {
+		// (under a quantifier the callee's body is evaluated instead: a contract call would
+		// introduce one result constant for all instances)
 		return f.callContract(ct, fn.Signature, args, pos, funcKey(fn), bindings...)
 	}
 	if ct := x.prog.Externs[name]; ct != nil {
 		return f.callContract(ct, fn.Signature, args, pos, name)
 	}
-	if len(fn.Blocks) > 0 && f.depth < x.opts.InlineDepth && inlinable(fn) && (x.prog.isRepoFunc(fn) || x.prog.inlineLib(fn)) {
+	if len(fn.Blocks) > 0 && (f.depth < x.opts.InlineDepth || len(x.qsyms) > 0) && inlinable(fn) && (x.prog.isRepoFunc(fn) || x.prog.inlineLib(fn)) {
 		r := x.run(fn, args, bindings, f.st, f.cur, f.depth+1, false)
 		if r.noRet {
 			f.dead = true
@@ -226,6 +228,10 @@ func (prog *Program) inlineLib(fn *ssa.Function) bool {
 	switch fn.Pkg.Pkg.Path() {
 	case "slices", "maps", "cmp":
 		return true
+	case "github.com/opencontainers/runtime-tools/generate":
+		// the OCI generator's setters are tiny loop-free functions over the spec; their
+		// real bodies are executed (those with loops are external calls)
+		return inlinable(fn)
 	}
 	return false
 }
@@ -448,9 +454,19 @@ func (x *Exec) contractEnv(ct *Contract, sig *types.Signature, args []Val, cur, 
 	env := &Env{x: x, vars: map[string]Val{}, cur: cur, old: old, pkg: ct.Pkg}
 	i := 0
 	if ct.Fn != nil {
+		old, hasOld := NameBaseline[unitName(ct)]
+		if hasOld && len(old.Params) != len(ct.Fn.Params)+len(ct.Fn.FreeVars) {
+			hasOld = false
+		}
 		for _, p := range ct.Fn.Params {
 			if i < len(args) {
 				env.vars[p.Name()] = args[i]
+				if hasOld {
+					// the name the contract was written against (parameter renamed since)
+					if _, clash := env.vars[old.Params[i]]; !clash {
+						env.vars[old.Params[i]] = args[i]
+					}
+				}
 			}
 			i++
 		}
